@@ -187,7 +187,8 @@ Section Generic.
   Lemma cdf_inv (P : td -> Prop) : (forall s v, P s -> P (fst (td_rank Ops s v))) ->
     forall l s, P s -> P (fst (td_cdf Ops s l)).
   Proof.
-    intros HP l s Hs. unfold td_cdf. destruct (split_ok Ops l); cbn [fst]; auto.
+    intros HP l s Hs. unfold td_cdf. destruct (td_is_empty Ops s); cbn [fst]; auto.
+    destruct (split_ok Ops l); cbn [fst]; auto.
     pose proof (ranks_inv P HP l s Hs). destruct (ranks Ops s l) as [s' [rs|]]; cbn [fst] in *; auto.
   Qed.
   Lemma pmf_inv (P : td -> Prop) : (forall s v, P s -> P (fst (td_rank Ops s v))) ->
